@@ -39,6 +39,13 @@ def _slice(labels: tuple, sl: T, width_known: bool):
         raise LayoutError("non-constant column slice")
     if b is None and not width_known:
         raise LayoutError("open-ended slice on a table of unknown width")
+    if not width_known and b is not None and b > len(labels) and a >= 0:
+        # the table may have more columns than the labelled ones: a slice
+        # that reaches beyond them picks up further, unnamed columns
+        return labels[a:b] + tuple(f"col{k}" for k in
+                                   range(max(a, len(labels)), b))
+    if b is not None and b < 0 and not width_known:
+        raise LayoutError("negative slice end on a table of unknown width")
     return labels[a:b]
 
 
@@ -69,7 +76,10 @@ class Layout:
                 if k is not None:
                     return (inner[k],)
                 if c.op == "slice":
-                    return _slice(inner, c, self.width_known)
+                    # a table cut to an explicit end has a known width, and
+                    # so has anything derived from one
+                    known = self.width_known or self._closed(t.args[0])
+                    return _slice(inner, c, known)
                 raise LayoutError(f"column index {tm.show(c)}")
             if idx.op == "slice" or _const_int(idx) is not None:
                 # selection on axis 0 of a 2-D table = rows
@@ -115,6 +125,35 @@ class Layout:
             return out
         raise LayoutError(f"operation not in the layout algebra: "
                           f"{tm.show(t)[:120]}")
+
+
+def _closed_term(self, t: T) -> bool:
+    """the term's column count is fixed by an explicit slice end somewhere
+    on the way from the source table"""
+    seen = 0
+    while isinstance(t, T) and seen < 12:
+        seen += 1
+        if t.op == "named":
+            t = t.args[1]
+            continue
+        if t.op == "sub":
+            idx = t.args[1]
+            if idx.op == "tuple" and len(idx.args) == 2 and \
+                    idx.args[1].op == "slice" and \
+                    _const_int(idx.args[1].args[1]) is not None and \
+                    _const_int(idx.args[1].args[1]) >= 0:
+                return True
+            t = t.args[0]
+            continue
+        if is_call_to(t, "numpy.roll", "numpy.array", "numpy.asarray") and \
+                t.args[1]:
+            t = t.args[1][0]
+            continue
+        return False
+    return False
+
+
+Layout._closed = _closed_term
 
 
 def labelled(n: int, prefix="c") -> tuple:
